@@ -48,7 +48,8 @@ def span_rule(chk, P):
             c = canon(es)
             good = False
             # the span remembered for an earlier declaration: first component of the tuple stored by the only insert
-            if es[0] == "field" and es[2] == "0":
+            if es[0] == "field":     # `.0` of the stored tuple, or a named field of the stored record
+                fld = es[2]
                 inner = terms.strip(es[1])
                 if inner[0] == "field" and inner[2] == "0":
                     inner = terms.strip(inner[1])
@@ -57,8 +58,11 @@ def span_rule(chk, P):
                     if call[0] == "call" and call[1] == "std::collections::HashMap::insert" and canon(call[2][0]) == "self.virtual_signals":
                         tup = terms.strip(call[2][2])
                         ins = [x for x in P.callers(lambda n: n == "std::collections::HashMap::insert") if canon(P.call_arg_terms(x[0], x[1])[0]) == "self.virtual_signals"]
-                        if tup[0] == "agg" and tup[1] == "tuple" and len(ins) == 1:
+                        if tup[0] == "agg" and tup[1] == "tuple" and len(ins) == 1 and fld == "0":
                             es = terms.strip(tup[3][0], clones=True)
+                            c = canon(es)
+                        elif tup[0] == "agg" and tup[1] == "adt" and len(ins) == 1 and fld in dict(tup[3]):
+                            es = terms.strip(dict(tup[3])[fld], clones=True)     # the same component, stored under a name
                             c = canon(es)
             if es[0] == "agg" and es[2].endswith("ops::Range"):
                 fs = {k: canon(terms.strip(v, clones=True)) for k, v in es[3]}
